@@ -16,6 +16,12 @@ pub const TOKENS: &[&[u8]] = &[
     b"<script>", b"</script>", b"<script ", b"</scr", b"<!--", b"-->", b"--!>", b"<style>", b"</style>", b"<textarea>", b"</textarea>",
     b"<title>", b"<plaintext>", b"<![CDATA[", b"]]>", b"<!DOCTYPE", b"<a b=\"", b"'>", b"<", b"/", b"-", b">", b"x", "é".as_bytes(), b"\xff",
     b"\x00",
+    b"<a b=",
+    "à".as_bytes(),
+    "\u{a0}".as_bytes(),
+    b"<script",
+    b"<style",
+    b" c='",
 ];
 
 pub const CONTEXTS: &[&str] = &["", "script", "style", "textarea", "title", "plaintext", "iframe", "noembed", "noframes", "noscript", "xmp", "div"];
@@ -45,14 +51,10 @@ pub fn check_input(input: &[u8], context: &str) -> Result<String, (String, Strin
             let tt = match t.next() {
                 Ok(tt) => tt,
                 Err(e) => {
-                    if valid_utf8 {
-                        return Err(("next-error-on-valid-utf8".into(), format!("next() returned Err({e}) on valid UTF-8")));
-                    }
-                    // on invalid UTF-8 an Err is tolerated, but the bytes must still be accounted for
-                    rebuilt.extend(t.raw());
-                    rebuilt.extend(t.buffered());
-                    kinds.push('!');
-                    break;
+                    // tokenisation is total: next() itself never fails, whatever the bytes (only the
+                    // string accessors may, on invalid UTF-8)
+                    let _ = valid_utf8;
+                    return Err(("next-returned-error".into(), format!("next() returned Err({e})")));
                 }
             };
             n += 1;
